@@ -549,6 +549,14 @@ func (y *c16L2Sys) script(w *world.L2, ctx sdk.Context) []string {
 	d("Deposit(next+1,refund)", opchildtypes.NewMsgFinalizeTokenDeposit(ex, "l1sender", "garbage", sdk.NewInt64Coin(c06Denom, 2), n+1, 4, "uxx", nil))
 	d("Deposit(stale)", opchildtypes.NewMsgFinalizeTokenDeposit(ex, "l1sender", alice, sdk.NewInt64Coin(c06Denom, 2), n, 4, "uxx", nil))
 	d("Withdraw", opchildtypes.NewMsgInitiateTokenWithdrawal(alice, "l1addr", sdk.NewInt64Coin(c06Denom, 1)))
+	// a fresh operator with each consensus key that may already be in use (exercises the consensus-key index)
+	for _, k := range vsKeys {
+		ctxb, _ := ctx.CacheContext()
+		mk, _ := opchildtypes.NewMsgAddValidator("fresh", w.Authority, valOf("admin"), world.EdKey(k).PubKey())
+		out = append(out, showRes("AddValidator(fresh-operator,"+k+") [branch]", w.Deliver(ctxb, mk)))
+		val, found := w.K.GetValidatorByConsAddr(ctx, sdk.GetConsAddress(world.EdKey(k).PubKey()))
+		out = append(out, fmt.Sprintf("ValidatorByConsAddr(%s) found=%v operator=%s", k, found, opName(val.OperatorAddress)))
+	}
 	m1, _ := opchildtypes.NewMsgAddValidator("o3", w.Authority, valOf("o3"), world.EdKey("k3").PubKey())
 	d("AddValidator(o3,k3)", m1)
 	m2, _ := opchildtypes.NewMsgAddValidator("o2", w.Authority, valOf("o2"), world.EdKey("k2").PubKey())
@@ -626,6 +634,11 @@ func (y *c16L2Sys) Check(s *c16L2State) (v *engine.Violation) {
 	exp2 = strings.SplitN(exp2, "\n", 2)[0]
 	if exp2 != parts[0] {
 		return tagged(viol("re-export-is-identical", "exported genesis differs after import:\n  original: %.600s\n  clone:    %.600s", diffAround(parts[0], exp2), diffAround(exp2, parts[0])), "chain", "l2")
+	}
+	// the imported chain satisfies the same structural invariant as the original: the operator and
+	// consensus-key indexes are one-to-one with the stored validators
+	if v := (&vsSys{}).indexes(&vsState{ctx: bctx, w: b}); v != nil {
+		return tagged(viol("clone-answers-like-the-original", "after import: %s", v.Msg), "chain", "l2", "what", "validator-indexes")
 	}
 	octx, _ := s.ctx.CacheContext()
 	t1 := y.script(s.w, octx)
